@@ -102,10 +102,21 @@ CLAIMED = {
                  'path property of reduced DAGs it rests on). Partial: termination under all schedules is tied and monitored, not a '
                  'theorem; shapes with one-of / recurrent subgraphs rest on the tie (trace-only routing monitor everywhere, Sem inside '
                  'the fragment).', '§6 C09'),
-    'C10': sched('Proof (general, local to _run_oneof): candidates are opened and started strictly in declared order, the next only '
-                 'after a recorded failure of the current one, none after a success; unopened candidates are invisible; exhaustion '
-                 'yields OneOfDoesNotHaveResultError, contained when nested (C10_*). Partial: first-success semantics under all '
-                 'schedules is tied and monitored (private candidates).', '§6 C10'),
+    'C10': sched('Proof (pipelines with switches and one-ofs in any nesting, no recurrent subgraph; all schedules; safety): for every '
+                 'solution of the dataflow equations in which a one-of has the value of the first candidate, in declared order, that '
+                 'has one, in every reachable state the value stored for a one-of head is that candidate\'s value '
+                 '(C10_head_value_is_first_success), a failure stored inside a one-of scope belongs to a node without a value and is '
+                 'never passed to a body (C10_contained_failure_has_no_value, C10_body_arguments), every stored / saved / returned '
+                 'value is the semantic one, an error outcome has a cause (OneOfDoesNotHaveResultError: no candidate has a value), and '
+                 'a started node is needed — a candidate only if all earlier candidates of its one-of have no value '
+                 '(C10_only_needed_nodes_run). From the frame-local invariant of Proofs/Safe.lean; key lemma hasError_none (an '
+                 'exception anywhere in a candidate\'s reduced DAG means the candidate has no value), which rests on path soundness '
+                 'of reduced DAGs (Proofs/GraphReach.lean) and was false before repo fix cd71782. Hypotheses: OneP (structural; its '
+                 'Boolean form is evaluated by the driver on every generated program and holds on 98 % of the one-of programs) and '
+                 'SolutionOne (incl. the input node has a value). General, local tier (all programs): candidates are opened and '
+                 'started strictly in declared order, the next only after a recorded failure, none after a success; unopened '
+                 'candidates are invisible; exhaustion yields OneOfDoesNotHaveResultError, contained when nested (C10_*). Partial: '
+                 'termination, and the shapes with recurrent subgraphs, are tied and monitored, not theorems.', '§6 C10'),
     'C11': sched('Proof (general, local to _run_recurrent_subgraph): iteration k runs only if k < max_iterations and hands the data to '
                  'the start node; exhaustion gives default iff opted in else the recurrent error; a Recurrent result never unlocks '
                  'consumers; re-execution needs a hide (with C04) (C11_*). Partial: consumers-see-final-only under all schedules is '
